@@ -386,7 +386,7 @@ func (vc *VC) inputTermsFor(name string, t Term) {
 		vc.inputs = append(vc.inputs, "(sl.base "+t.S+")", "(sl.off "+t.S+")", "(sl.len "+t.S+")", "(sl.cap "+t.S+")")
 		if t.T != nil {
 			if sl, ok := t.T.Underlying().(*types.Slice); ok {
-				if es := vc.sortOf(sl.Elem()); es == bvSort(8) {
+				if es := vc.sortOf(sl.Elem()); es == bvSort(8) && canonType(sl.Elem()) == "uint8" {
 					key := vc.memKey(sl.Elem())
 					name := q("H0 " + key)
 					if vc.declared[name] {
